@@ -202,23 +202,6 @@ harness! {
 harness! {
     #[kani::unwind(17)]
     #[kani::stub(alloc::fmt::format, crate::stubs::fmt_stub)]
-    /// rejection half of the DF17 gate on EVERY DF17 frame (all capability values, all type
-    /// codes, all payloads): a non-zero remainder is never accepted
-    fn gate_df17_reject(s) {
-        let mut f: [u8; 14] = s.bytes();
-        f[0] = 0x88 | (f[0] & 7);
-        let syn = syndrome(&f, 14);
-        vassume!(syn != 0);
-        let r = Message::try_from(&f[..]);
-        vcover!(f[0] == 0x8f && f[4] == 0xff);
-        vassert!(r.is_err(), "DF17 frame with a non-zero remainder is rejected");
-        core::mem::forget(r);
-    }
-}
-
-harness! {
-    #[kani::unwind(17)]
-    #[kani::stub(alloc::fmt::format, crate::stubs::fmt_stub)]
     /// the AP field reader reports the crc context (= recovered address), whatever the 24 AP bits are
     fn icao_parity_is_ctx(s) {
         let b: [u8; 3] = s.bytes();
@@ -326,6 +309,6 @@ ap_long!(ap_df16, 0x80, false);
 ap_long!(ap_df20, 0xa0, true);
 ap_long!(ap_df21, 0xa8, true);
 
-registry!(gate_df17_reject, icao_parity_is_ctx, table_entries, table_step, checksum_long, checksum_short, linear, err_single, err_double, err_burst,
+registry!(icao_parity_is_ctx, table_entries, table_step, checksum_long, checksum_short, linear, err_single, err_double, err_burst,
           gate_df17, gate_df17_all_ca, e2e_corruption, overlay_checksum,
           ap_df0, ap_df4, ap_df5, ap_df4_fs5, ap_df5_fs7, ap_df16, ap_df20, ap_df21);
